@@ -413,6 +413,13 @@ func (e *env) cond(x ast.Expr) (string, error) {
 				return "true(" + l + ")", nil
 			}
 			if t.Op == token.NEQ && r == "0" {
+				// the bit pattern of a float is non-zero exactly when the value is not +0: x != 0 || signbit(x)
+				for _, p := range []string{"f32bits(", "f64bits("} {
+					if strings.HasPrefix(l, p) && strings.HasSuffix(l, ")") {
+						in := l[len(p) : len(l)-1]
+						return "nonzero(" + in + ") || signbit(" + in + ")", nil
+					}
+				}
 				return "nonzero(" + l + ")", nil
 			}
 			if t.Op == token.NEQ && r == "nil" {
